@@ -1,12 +1,33 @@
 ENGINES = [
-    {"name": "fragcheck", "path": "/verif/fragcheck", "serves_properties": ["C01"],
+    {"name": "fragcheck", "path": "/verif/fragcheck", "serves_properties": ["C01", "C05"],
      "kind_free_text": "fragment contracts of Expr.__teal__: real method executed on opaque child proxies, symbolic execution of the returned block graph against the documented meaning (z3, uninterpreted child semantics, cut-point simulation for loops)"},
-    {"name": "pyvc", "path": "/verif/pyvc", "serves_properties": ["C02", "C16"],
+    {"name": "pyvc", "path": "/verif/pyvc", "serves_properties": ["C02", "C03", "C16"],
      "kind_free_text": "symbolic executor of a Python subset over the real source (ast re-read on every run) with sidecar contracts, loop invariants, callee contracts; VCs discharged by z3 (cvc5 for unknowns)"},
 ]
 NOTES = "Obligation kinds P/E/F are counted as proved; B (bounded stand-ins) are labelled and never counted. See DESIGN.md."
 NOT_APPLICABLE = {}
 CHECKS = {
+    "C03": {
+        "level": "other", "engine": "pyvc",
+        "technique": "contracts on the option-default functions (pyvc/z3); version-parametric fragment contracts (C01); bounded stand-in: every option pair x versions on generated programs against the description's meaning",
+        "text": "OptimizeOptions.optimize_scratch_slots / use_frame_pointers are proved to follow the documented defaults (v9 / v8) and to honour / reject explicit requests. Whole-program independence of (scratch_slots, frame_pointers, version) - outcome, empty stack at exit, final user-numbered slots - is a bounded stand-in over generated programs; the slot optimiser itself is not yet under contract.",
+        "note": "proof part covers only the option-default functions; optimiser + whole program are bounded (labelled). Known finding O3.4 (optimiser leaves values on the stack) is reported as KNOWN-FINDING.",
+        "design_ref": "DESIGN.md 5/C03",
+    },
+    "C05": {
+        "level": "other", "engine": "fragcheck",
+        "technique": "fragment contracts (stack delta / type_of / has_return clauses, z3) + exhaustive tables (type lattice, operator signatures vs langspec) + bounded abstract interpretation of emitted TEAL",
+        "text": "Each construct's fragment is proved to push exactly type_of() values and never to touch the stack below its entry, for all run-time states (fragcheck); require_type / types_match are checked on all 16 type pairs; every operator factory's operand/result types agree with the langspec signature of its op. Per-program discipline (equal heights on all paths, retsub deltas, no definite type error) is decided by abstract interpretation of the emitted TEAL for generated programs (bounded).",
+        "note": "trusted: langspec signatures, tealcheck abstract interpreter, spec terms. Raw ScratchSlot.store() excluded as in the property.",
+        "design_ref": "DESIGN.md 5/C05",
+    },
+    "C20": {
+        "level": "other", "engine": "bounded",
+        "technique": "bounded stand-in only: exhaustive small-scope enumeration of degenerate control-flow shapes, generated programs and size probes compiled by the real compileTeal (no deductive obligation yet)",
+        "text": "All statement shapes of nesting depth <= 2 over pop / empty Seq / If / While / For / Cond / Break / Continue, as first statement and after a statement, at several versions with the optimiser on and off, must compile to TEAL (and behave as described) or raise a PyTeal error; plus generated programs and long / deeply nested probes. Exploration, not proof.",
+        "note": "no obligations counted as proved. Three defects found here were repaired (fix: commits); recursion depth on long programs is a known finding.",
+        "design_ref": "DESIGN.md 5/C20",
+    },
     "C01": {
         "level": "proof", "engine": "fragcheck",
         "technique": "fragment contracts: the real __teal__ of every anchored construct run on opaque children, resulting block graph vs documented meaning by z3 for all run-time states (loops by cut-point simulation); bounded native stand-in for the block passes",
